@@ -383,14 +383,14 @@ def run_one(ctx, c):
 
 def generate(ctx: Ctx, scale: int, rng):
     n = lambda q: max(1, q * scale)
-    for i in range(n(14)):
+    for i in range(n(20)):
         c = gen_sized(rng, rng.choice([520, 600, 700, 800, 900, 1000, 1200, 1500]))
         if c is None:
             ctx.count("gen.rejected")
             continue
         c["kind"] = "sweep"
         run_one(ctx, c)
-    for i in range(n(16)):
+    for i in range(n(20)):
         c = gen_sized(rng, rng.choice([60, 150, 300, 520, 700]), want_opt=True, want_tsig=rng.chance(2, 3))
         if c is None:
             ctx.count("gen.rejected")
@@ -402,7 +402,7 @@ def generate(ctx: Ctx, scale: int, rng):
         c["max_size"] = rng.choice([65535, 65535, 512, len(w) + rng.choice([0, 1, 5, 40, 130])])
         c["prefer_truncation"] = rng.chance(1, 2)
         run_one(ctx, c)
-    for i in range(n(60)):
+    for i in range(n(80)):
         c = gen_sized(rng, rng.choice([200, 400, 700]), want_opt=False, want_tsig=False)
         if c is None:
             continue
@@ -420,7 +420,7 @@ def run(ctx: Ctx):
         ctx.case(("corpus", p), sample=None)
         eval_case(ctx, c)
         ctx.count("corpus")
-    generate(ctx, 1 if ctx.tier == "quick" else 12, ctx.rng)
+    generate(ctx, 1 if ctx.tier == "quick" else 20, ctx.rng)
 
 
 def search(ctx: Ctx):
